@@ -278,5 +278,6 @@ pub fn subs() -> Vec<Box<dyn DynSub>> {
     vec![
         sub(Sub { name: "c17.views", source: Source::Gen(view_strategy, 2_000_000, 10_000_000), oracle: view_oracle, known: no_known, hang_is_violation: false }),
         sub(Sub { name: "c17.constructors", source: Source::Gen(ctor_strategy, 2_000_000, 10_000_000), oracle: ctor_oracle, known: no_known, hang_is_violation: false }),
+        crate::props::fuzzsub::fc17(),
     ]
 }
